@@ -245,8 +245,15 @@ func (engine *Engine) DialAsyncTimeout(network, addr string, timeout time.Durati
 		}
 	}
 
+	engine.stopMux.Lock()
+	if engine.stopped {
+		engine.stopMux.Unlock()
+		_ = syscall.Close(fd)
+		return ErrEngineStopped
+	}
 	engine.wgConn.Add(1)
 	_, err = engine.addDialer(c)
+	engine.stopMux.Unlock()
 	if err != nil {
 		engine.wgConn.Done()
 		return err
